@@ -107,4 +107,11 @@ def exampleDB : V :=
   .struct [.str ['a', '&', 'b'], .list [withTimes (zeroOf Spec.schema 8 (.named "Lap"))],
     .list [withTimes (zeroOf Spec.schema 8 (.named "Vehicles"))]]
 
+/-- the recorded finding: the example lap with `AmbientTemp = 0.04` (an `omitempty` one-decimal
+    field; prints as `0.0`) -/
+def findingDB : V :=
+  match withTimes (zeroOf Spec.schema 8 (.named "Lap")) with
+  | .struct fs => .struct [.str ['a'], .list [.struct (setNth fs 9 (.flt 0x3FA47AE147AE147B))], .list []]
+  | v => v
+
 end TrackVerif.LT
